@@ -272,6 +272,11 @@ pub fn visitor_name(v: MVisitor) -> &'static str {
     }
 }
 
+/// key of a spend by (parent, amount) alone (see `reveals_of`)
+pub fn reveal_slot(parent: &[u8; 32], amount: u64) -> [u8; 32] {
+    sha256(&[b"reveal-slot", parent, &amount.to_be_bytes()])
+}
+
 /// C02: invariants every accepted result of every entry point must satisfy.
 /// Called by all consensus monitors on every `Ok` they obtain.
 pub fn accept_invariants(
@@ -329,7 +334,7 @@ pub fn accept_invariants(
             }
         }
         if let Some(r) = reveals {
-            if let Some(h) = r.get(&want) {
+            if let Some(h) = r.get(&want).or_else(|| r.get(&reveal_slot(&s.parent_id.to_bytes(), s.coin_amount))) {
                 rep.count("c02:puzzle-hash-checked");
                 if s.puzzle_hash.to_bytes() != *h {
                     fail(rep, "puzzle-hash", format!("reported puzzle hash {} is not the tree hash of the reveal {}", hx(&s.puzzle_hash), hx(h)));
